@@ -14,6 +14,8 @@ using namespace draco;
 #define NC (3 * NF)
 typedef std::pair<VertexIndex, CornerIndex> SinkPair;
 VERIF_VEC_GROW_MODEL(SinkPair, NF)
+VERIF_VEC_FILL_MODEL(VertexIndex)
+VERIF_VEC_FILL_MODEL(CornerIndex)
 #include "draco/mesh/corner_table.cc"
 static inline uint32_t nx(uint32_t c) { return c % 3 == 2 ? c - 2 : c + 1; }
 static inline uint32_t pv(uint32_t c) { return c % 3 == 0 ? c + 2 : c - 1; }
@@ -142,5 +144,38 @@ extern "C" void h_vertex_corners(void) {
     verif_assert(c2v2[c] == c2v[c], "corners of degenerate faces keep their vertex id");
   }
   t.release(); verif_release(t.ct.vertex_corners_.vector_); verif_release(t.ct.non_manifold_vertex_parents_.vector_);
+  verif_reach();
+}
+
+// the whole construction: the real CornerTable::Init on ANY triangle list (member vectors pre-reserved by the harness)
+extern "C" void h_init(void) {
+  VertexIndex c2v_store[NC]; CornerIndex opp_store[NC]; Tab t(c2v_store, opp_store); uint32_t in[NC], c2v2[NC], opp[NC];
+  CornerTable::FaceType face_s[NF]; IndexTypeVector<FaceIndex, CornerTable::FaceType> faces;
+  for (int c = 0; c < NC; ++c) { in[c] = nondet_u32(); verif_assume(in[c] < NV); face_s[c / 3][c % 3] = VertexIndex(in[c]); }
+  verif_adopt(faces.vector_, face_s, NF, NF);
+  verif_adopt(t.ct.corner_to_vertex_map_.vector_, c2v_store, 0, NC);
+  verif_adopt(t.ct.opposite_corners_.vector_, opp_store, 0, NC);
+  CornerIndex vc_s[NV + NC]; VertexIndex par_s[NC];
+  verif_adopt(t.ct.vertex_corners_.vector_, vc_s, 0, NV + NC);
+  verif_adopt(t.ct.non_manifold_vertex_parents_.vector_, par_s, 0, NC);
+  verif_assert(t.ct.Init(faces), "Init succeeds");
+  uint32_t mx = 0; for (int c = 0; c < NC; ++c) if (in[c] > mx) mx = in[c];
+  const uint32_t nv = mx + 1, nv2 = (uint32_t)t.ct.num_vertices();
+  verif_assert(t.ct.num_corners() == NC && t.ct.num_faces() == NF, "sizes");
+  verif_assert(nv2 >= nv && nv2 <= NV + NC, "vertex count");
+  for (int c = 0; c < NC; ++c) { c2v2[c] = c2v_store[c].value(); opp[c] = opp_store[c].value(); verif_observe(c2v2[c]); verif_observe(opp[c]); }
+  uint32_t c = nondet_u32(); verif_assume(c < NC);
+  verif_assert(opposite_ok_at(c2v2, opp, c), "opposite is a symmetric pairing across a shared, oppositely oriented edge; degenerate faces unlinked");
+  verif_assert(opposite_ok_at(in, opp, c), "... also in terms of the input vertex ids");
+  if (nondeg(in, c)) {
+    verif_assert(c2v2[c] < nv2, "vertex id in range");
+    verif_assert(t.ct.VertexParent(VertexIndex(c2v2[c])).value() == in[c], "corner of a non-degenerate face maps through VertexParent to the input vertex id");
+    const uint32_t rep = t.ct.LeftMostCorner(VertexIndex(c2v2[c])).value();
+    verif_assert(rep < NC && c2v2[rep] == c2v2[c], "representative corner lies on its vertex");
+    uint32_t cur = rep; int found = 0;
+    for (int k = 0; k < NF; ++k) { if (cur == c) found = 1; cur = swr(opp, cur); if (cur == INV || cur == rep) break; }
+    verif_assert(found, "every corner of a vertex is reached by swinging right from the representative corner");
+  }
+  t.release(); verif_release(t.ct.vertex_corners_.vector_); verif_release(t.ct.non_manifold_vertex_parents_.vector_); verif_release(faces.vector_);
   verif_reach();
 }
